@@ -441,14 +441,24 @@ theorem aggCell_wp {E : String → Prop} (item : SelItem) {colIdx n : Nat} {g : 
     · rename_i e
       exact absurd (List.head?_eq_none_iff.mp e) hne
 
+/-- the grouping path of `aggregateRows` is taken with an aggregate in the select list OR with a
+GROUP BY (`SELECT a FROM t GROUP BY a`); on it every row needs one value per select-list element -/
 theorem aggregateRows_wp {E : String → Prop} (sl : List DerivedCol) (groupBy : List ColRef)
-    (rows : List Row) (h : hasAggr sl = true → ∀ r ∈ rows, r.length = sl.length) :
+    (rows : List Row)
+    (h : hasAggr sl = true ∨ groupBy ≠ [] → ∀ r ∈ rows, r.length = sl.length) :
     Wp E (fun _ => True) (aggregateRows sl groupBy rows) := by
   unfold aggregateRows
   split
   · trivial
   · rename_i hagg
-    have hagg' : hasAggr sl = true := by simpa using hagg
+    have hagg' : hasAggr sl = true ∨ groupBy ≠ [] := by
+      cases hb : hasAggr sl with
+      | true => exact Or.inl rfl
+      | false =>
+        right
+        intro e
+        rw [hb, e] at hagg
+        exact hagg rfl
     have hrows := h hagg'
     split
     · apply Wp.bind (P := fun _ => True)
@@ -484,6 +494,14 @@ theorem bind_eq_ok {α β} {m : X α} {f : α → X β} {b : β} (h : (m >>= f) 
   | ok a => exact ⟨a, rfl, h⟩
   | err e => cases h
   | panic s => cases h
+
+/-- a select list that is just `*` has no column a GROUP BY reference could designate: no grouping,
+or the error `groupByNotSelected` -/
+theorem aggregateRows_star_wp {E : String → Prop} (a : Bytes) (groupBy : List ColRef)
+    (rows : List Row) : Wp E (fun _ => True) (aggregateRows [⟨.star, a⟩] groupBy rows) := by
+  cases groupBy with
+  | nil => trivial
+  | cons g rest => trivial
 
 /-- the positions in the select list of the GROUP BY columns, as `aggregateRows` resolves them -/
 def groupIdxs (sl : List DerivedCol) (groupBy : List ColRef) : X (List Nat) :=
@@ -540,7 +558,8 @@ theorem sortColumns_wp (ob : List SortSpec) (hdr : List Field) (rows : List Row)
 /-! ### (i) the main theorem -/
 
 theorem evaluateSelect_wp {fetch : Bytes → Option Table} (hw : WellShaped fetch) (q : Select)
-    (hq : isStar q.list = false ∨ hasAggr q.list = false) :
+    (hq : isStar q.list = false ∨ (hasAggr q.list = false ∧ q.groupBy = []) ∨
+      ∃ a, q.list = [⟨.star, a⟩]) :
     Wp (· = sortMsg) (fun _ => True) (evaluateSelect fetch q) := by
   unfold evaluateSelect
   split
@@ -569,11 +588,17 @@ theorem evaluateSelect_wp {fetch : Bytes → Option Table} (hw : WellShaped fetc
       rintro ⟨rows2, hdr⟩ ⟨hlen2, hstar⟩
       dsimp only at hlen2 hstar ⊢
       apply Wp.bind (P := fun _ => True)
-      · apply aggregateRows_wp
-        intro hagg r hr
-        rcases hq with hq | hq
-        · rw [hlen2 r hr, hstar hq]
-        · rw [hq] at hagg; cases hagg
+      · rcases hq with hq | ⟨hq, hgb⟩ | ⟨a, hq⟩
+        · apply aggregateRows_wp
+          intro _ r hr
+          rw [hlen2 r hr, hstar hq]
+        · apply aggregateRows_wp
+          intro hagg
+          rcases hagg with hagg | hagg
+          · rw [hq] at hagg; cases hagg
+          · exact absurd hgb hagg
+        · rw [hq]
+          exact aggregateRows_star_wp a q.groupBy rows2
       · intro rows3 _
         apply Wp.bind (sortColumns_wp _ _ _)
         intro rows4 _
@@ -587,16 +612,20 @@ theorem evaluateSelect_wp {fetch : Bytes → Option Table} (hw : WellShaped fetc
 
 /-- (i) With well-shaped tables the only panic left in the model is the sort comparator meeting
 two values of different non-NULL types in one column.  (The side condition excludes select
-lists that start with `*` AND contain an aggregate: see `star_aggregate_panics`.) -/
+lists that start with `*` AND go through the grouping code, i.e. contain an aggregate or come
+with a GROUP BY - except the list `[*]` itself, where a GROUP BY is refused: see
+`star_aggregate_panics`, `star_group_by_panics`.  A GROUP BY without an aggregate is covered by
+the first alternative: the projected rows have one value per select-list element.) -/
 theorem no_panic_except_sort {fetch : Bytes → Option Table} (hw : WellShaped fetch) (q : Select)
-    (hq : isStar q.list = false ∨ hasAggr q.list = false) (s : String)
+    (hq : isStar q.list = false ∨ (hasAggr q.list = false ∧ q.groupBy = []) ∨
+      ∃ a, q.list = [⟨.star, a⟩]) (s : String)
     (h : evaluateSelect fetch q = .panic s) : s = "sortColumns: no comparison available" :=
   (evaluateSelect_wp hw q hq).of_panic h
 
 theorem no_panic_except_sort_noaggr {fetch : Bytes → Option Table} (hw : WellShaped fetch)
-    (q : Select) (hq : hasAggr q.list = false) (s : String)
+    (q : Select) (hq : hasAggr q.list = false) (hgb : q.groupBy = []) (s : String)
     (h : evaluateSelect fetch q = .panic s) : s = "sortColumns: no comparison available" :=
-  no_panic_except_sort hw q (Or.inr hq) s h
+  no_panic_except_sort hw q (Or.inr (Or.inl ⟨hq, hgb⟩)) s h
 
 theorem no_panic_except_sort_nostar {fetch : Bytes → Option Table} (hw : WellShaped fetch)
     (q : Select) (hq : isStar q.list = false) (s : String)
@@ -610,7 +639,7 @@ theorem no_panic_except_sort_parsed_shape {fetch : Bytes → Option Table} (hw :
     (h : evaluateSelect fetch q = .panic s) : s = "sortColumns: no comparison available" := by
   apply no_panic_except_sort hw q ?_ s h
   rcases hq with ⟨a, e⟩ | e
-  · right; rw [e]; rfl
+  · exact Or.inr (Or.inr ⟨a, e⟩)
   · left; exact e
 
 /-! ### (j) comparable sort columns: no panic at all -/
@@ -692,6 +721,22 @@ theorem star_aggregate_panics :
     evaluateSelect (fun _ => some ⟨[[105]], [[.int 1]]⟩)
       { list := [⟨.star, []⟩, ⟨.count none, []⟩, ⟨.expr (.val (.lit (.int 1))), []⟩],
         from_ := some (.table ⟨[116], none⟩) } = .panic "aggregateRows: Vals[colIdx]" := rfl
+
+/-- and so is its GROUP BY half: `SELECT *, i FROM t GROUP BY i` (no aggregate; a list the parser
+never builds) on a one-column table indexes the joined row with the select-list position. -/
+theorem star_group_by_panics :
+    evaluateSelect (fun _ => some ⟨[[105]], [[.int 1]]⟩)
+      { list := [⟨.star, []⟩, ⟨.expr (.val (.col ⟨[], [105]⟩)), []⟩],
+        from_ := some (.table ⟨[116], none⟩),
+        groupBy := [⟨[], [105]⟩] } = .panic "aggregateRows: Vals[colIdx]" := rfl
+
+/-- (i) GROUP BY without an aggregate goes through the grouping code without panic:
+`SELECT i FROM t GROUP BY i` is one row per distinct `i` -/
+example : evaluateSelect exFetch
+    { list := [⟨.expr (.val (.col ⟨[], [105]⟩)), []⟩],
+      from_ := some (.table ⟨[116], none⟩),
+      groupBy := [⟨[], [105]⟩] } =
+    .ok ([[.int 1], [.int 2]], [⟨[116], [105]⟩]) := rfl
 
 /-- the one remaining panic: an output column holding an int and a string, sorted -/
 example : sortColumns [⟨⟨[], [105]⟩, false⟩] [⟨[], [105]⟩] [[.int 1], [.str [97]]] =
